@@ -1,6 +1,6 @@
 (* C02 — the comparison applied to the tables regenerated from /repo (definitions only). *)
 From Coq Require Import Arith List String.
-From FEC Require Import Models.PackingM Models.LayoutM Generated.LayoutCpp Generated.LayoutPyProbe Generated.LayoutExc.
+From FEC Require Import Models.PackingM Models.LayoutM Models.LayoutValuesM Generated.LayoutCpp Generated.LayoutPyProbe Generated.LayoutExc Generated.LayoutValues.
 
 Definition c02_layout_mismatches : list (string * row) :=
   paths_mismatches cpp_layouts layout_exceptions cpp_layouts py_layouts py_layout_paths.
@@ -8,3 +8,4 @@ Definition c02_readme_violations : list string :=
   map s_name (filter (fun s => negb (follows_readme s)) cpp_layouts).
 Definition c02_float_violations : list string :=
   map s_name (filter (fun s => negb (floats_aligned4 s)) cpp_layouts).
+Definition c02_value_mismatches : list vrow := value_mismatches value_rows.
